@@ -141,6 +141,8 @@ fn handle(v: &Value) -> Value {
         "glob" => json!(util::convert_glob_to_pattern(v["s"].as_str().unwrap())),
         "like" => json!(util::convert_like_to_pattern(v["s"].as_str().unwrap())),
         "is_glob" => json!(util::is_glob(v["s"].as_str().unwrap())),
+        // Variant::to_int on a value that only has its text (a literal in a comparison with an integer column)
+        "to_int" => json!(function::Variant::from_string(&v["s"].as_str().unwrap().to_string()).to_int()),
         // the filters the real search_upstream_* builds from an ignore file with the given lines, placed in the
         // directory `dir` (created by the caller; canonical), and the verdicts of matches_*_filter on `dir/rel`
         "ignore" => {
